@@ -432,3 +432,155 @@ Section LFrame.
     unfold Linker.linker_solve_M. destruct (max_iter o <? min_iter o); [apply sfrs_refl|apply solve_fold_sfrs].
   Qed.
 End LFrame.
+
+(* ======================= (C) an exception out of a hook or a submodel: nothing is stamped ======================= *)
+Section LRaise.
+  Variable num : Type.
+  Variables (sub : num -> num -> num) (absf : num -> num) (ltb : num -> num -> bool) (zero : num).
+  Variable sev : sid -> hook num.
+  Variables (pre ebefore eafter post : lhook num).
+
+  Notation comp := (comp num).
+  Notation lstate := (lstate num).
+  Notation lhook := (lhook num).
+  Notation find_sub := (find_sub num).
+  Notation put_sub := (put_sub num).
+  Notation put_sub_vals := (put_sub_vals num).
+  Notation with_cvals := (with_cvals num).
+  Notation set_iter := (set_iter num).
+  Notation bump_iter := (bump_iter num).
+  Notation zero_iters := (zero_iters num).
+  Notation run_hook := (run_hook num).
+  Notation eval_subs := (eval_subs num sev).
+  Notation iter_step := (iter_step num sev ebefore eafter).
+  Notation lloop := (lloop num sub absf ltb zero sev ebefore eafter post).
+  Notation lfinish := (lfinish num).
+  Notation solve_t := (linker_solve_t_M num sub absf ltb zero sev pre ebefore eafter post).
+  Notation llres_state := (llres_state num).
+
+  (* no status entry has changed anywhere, and the linker's own iteration counters are as they were
+     (submodel counters may have been zeroed / bumped, values may have been written) *)
+  Definition cst (c c' : comp) : Prop := status (c_st c') = status (c_st c).
+  Definition nostamp (s s' : lstate) : Prop :=
+    cst (l_core s) (l_core s') /\ iters (c_st (l_core s')) = iters (c_st (l_core s)) /\
+    Forall2 (fun a b => fst a = fst b /\ cst (snd a) (snd b)) (l_subs s) (l_subs s').
+
+  Lemma S2_refl l : Forall2 (fun a b : sid * comp => fst a = fst b /\ cst (snd a) (snd b)) l l.
+  Proof. induction l; constructor; auto. split; reflexivity. Qed.
+  Lemma S2_trans a : forall b c,
+    Forall2 (fun a b : sid * comp => fst a = fst b /\ cst (snd a) (snd b)) a b ->
+    Forall2 (fun a b : sid * comp => fst a = fst b /\ cst (snd a) (snd b)) b c ->
+    Forall2 (fun a b : sid * comp => fst a = fst b /\ cst (snd a) (snd b)) a c.
+  Proof.
+    induction a as [|x a IH]; intros b c H1 H2; inversion H1; subst; inversion H2; subst; constructor.
+    - destruct H3 as [E1 R1]. destruct H4 as [E2 R2]. split; [congruence|unfold cst in *; congruence].
+    - eapply IH; eauto.
+  Qed.
+  Lemma S2_put_sub id c c' l : find_sub id l = Some c -> cst c c' ->
+    Forall2 (fun a b : sid * comp => fst a = fst b /\ cst (snd a) (snd b)) l (put_sub id c' l).
+  Proof.
+    intros Hf Hr. induction l as [|[i x] r IH]; cbn [Linker.find_sub Linker.put_sub] in *; [constructor|].
+    destruct (Nat.eqb id i).
+    - inversion Hf; subst. constructor; [split; [reflexivity|exact Hr]|apply S2_refl].
+    - constructor; [split; reflexivity|apply IH; exact Hf].
+  Qed.
+  Lemma S2_put_vals l : forall vs,
+    Forall2 (fun a b : sid * comp => fst a = fst b /\ cst (snd a) (snd b)) l (put_sub_vals l vs).
+  Proof.
+    induction l as [|[i x] r IH]; intros [|v vs]; cbn [Linker.put_sub_vals]; try apply S2_refl.
+    constructor; [split; reflexivity|apply IH].
+  Qed.
+
+  Lemma nostamp_refl s : nostamp s s.
+  Proof. split; [reflexivity|]. split; [reflexivity|apply S2_refl]. Qed.
+  Lemma nostamp_trans a b c : nostamp a b -> nostamp b c -> nostamp a c.
+  Proof.
+    intros (A1 & A2 & A3) (B1 & B2 & B3). split; [unfold cst in *; congruence|]. split; [congruence|eapply S2_trans; eauto].
+  Qed.
+
+  Lemma cst_set_iter c t x c' : set_iter c t x = Some c' -> cst c c'.
+  Proof. unfold Linker.set_iter. destruct (py_set _ t x); [|discriminate]. intros H; inversion H; subst. reflexivity. Qed.
+  Lemma cst_bump c t c' : bump_iter c t = Some c' -> cst c c'.
+  Proof. unfold Linker.bump_iter. destruct (py_get _ t); [|discriminate]. apply cst_set_iter. Qed.
+
+  Lemma zero_iters_S2 t : forall ids subs,
+    Forall2 (fun a b : sid * comp => fst a = fst b /\ cst (snd a) (snd b)) subs (fst (zero_iters ids t subs)).
+  Proof.
+    induction ids as [|id r IH]; intros subs; cbn [Linker.zero_iters fst]; [apply S2_refl|].
+    destruct (find_sub id subs) as [c|] eqn:Ef; [|apply S2_refl].
+    destruct (set_iter c t 0) as [c'|] eqn:Es; [|apply S2_refl].
+    eapply S2_trans; [|apply IH]. eapply S2_put_sub; eauto. eapply cst_set_iter; eauto.
+  Qed.
+
+  Lemma run_hook_nostamp (h : lhook) ids o t k e s : nostamp s (fst (run_hook h ids o t k e s)).
+  Proof.
+    unfold Linker.run_hook. destruct (h t ids (errors o) (catch_first o) k _) as [jv r]. cbn [fst].
+    unfold put_jv. split; [reflexivity|]. split; [reflexivity|apply S2_put_vals].
+  Qed.
+
+  Lemma eval_subs_nostamp o t k : forall ids s, nostamp s (fst (eval_subs o t k ids s)).
+  Proof.
+    induction ids as [|id r IH]; intros s; cbn [Linker.eval_subs]; [apply nostamp_refl|].
+    destruct (find_sub id (l_subs s)) as [c|] eqn:Ef; [|apply nostamp_refl].
+    destruct (sev id t (errors o) (catch_first o) k (vals_of (c_st c))) as [v' [e|]].
+    - cbn [fst]. split; [reflexivity|]. split; [reflexivity|]. eapply S2_put_sub; eauto. reflexivity.
+    - destruct (bump_iter (with_cvals c v') t) as [c2|] eqn:Eb.
+      + eapply nostamp_trans; [|apply IH]. split; [reflexivity|]. split; [reflexivity|]. cbn [l_subs].
+        eapply S2_put_sub; eauto. apply cst_bump in Eb. exact Eb.
+      + cbn [fst]. split; [reflexivity|]. split; [reflexivity|]. eapply S2_put_sub; eauto. reflexivity.
+  Qed.
+
+  Lemma iter_step_nostamp ids o t k s : nostamp s (fst (iter_step ids o t k s)).
+  Proof.
+    unfold Linker.iter_step.
+    pose proof (run_hook_nostamp ebefore ids o t k (LBefore t k) s) as H1.
+    destruct (run_hook ebefore ids o t k (LBefore t k) s) as [s1 [e|]]; cbn [fst] in *; [exact H1|].
+    pose proof (eval_subs_nostamp o t k ids s1) as H2.
+    destruct (eval_subs o t k ids s1) as [s2 [e|]]; cbn [fst] in *; [eapply nostamp_trans; eauto|].
+    eapply nostamp_trans; [exact H1|]. eapply nostamp_trans; [exact H2|]. apply run_hook_nostamp.
+  Qed.
+
+  (* the loop itself never stamps: whatever it returns, its state carries the statuses it started with *)
+  Lemma lloop_nostamp ids o t : forall n k s cur, nostamp s (llres_state (lloop ids o t n k s cur)).
+  Proof.
+    induction n as [|n IH]; intros k s cur; cbn [Linker.lloop LinkerFacts.llres_state]; [apply nostamp_refl|].
+    pose proof (iter_step_nostamp ids o t k s) as H1.
+    destruct (iter_step ids o t k s) as [s1 [e|]]; cbn [fst LinkerFacts.llres_state] in *; [exact H1|].
+    destruct (Linker.get_check_values num zero ids t s1) as [cur'|e]; cbn [LinkerFacts.llres_state]; [|exact H1].
+    destruct (Z.of_nat k <? min_iter o); [eapply nostamp_trans; [exact H1|apply IH]|].
+    destruct (conv_all num sub absf ltb (tol o) cur' cur); [|eapply nostamp_trans; [exact H1|apply IH]].
+    pose proof (run_hook_nostamp post ids o t k (LPost t k) s1) as H2.
+    destruct (run_hook post ids o t k (LPost t k) s1) as [s2 [e|]]; cbn [fst LinkerFacts.llres_state] in *;
+      eapply nostamp_trans; eauto.
+  Qed.
+
+  Lemma lfinish_user o ids t r c : snd (lfinish o ids t r) = LRaise (LUser c) ->
+    exists s, r = LLRaise s (LUser c) /\ fst (lfinish o ids t r) = s.
+  Proof.
+    destruct r as [s x k|s e]; cbn [Linker.lfinish].
+    - destruct (set_status num (l_core s) t x) as [c1|]; [|discriminate].
+      destruct (set_iter c1 t (Z.of_nat k)) as [c2|]; [|discriminate].
+      destruct (stamp_subs num ids t x (l_subs s)) as [subs' [e|]]; [discriminate|].
+      destruct (st_eqb x Failed && fail_raise o); discriminate.
+    - cbn [snd fst]. intros H; inversion H; subst. eauto.
+  Qed.
+
+  (* An exception raised by a linker hook or by a submodel's _evaluate surfaces unchanged (the linker wraps nothing) and
+     NOTHING has been stamped: every status series — the linker's and every submodel's — and the linker's own iteration
+     counters are exactly what they were before the call (the linker has no error policy of its own). *)
+  Theorem user_exception_stamps_nothing sel o t s c :
+    snd (solve_t sel o t s) = LRaise (LUser c) -> nostamp s (fst (solve_t sel o t s)).
+  Proof.
+    unfold Linker.linker_solve_t_M. set (ids := sel_ids num sel s).
+    destruct (Linker.get_check_values num zero ids t s) as [cur|e]; [|discriminate].
+    pose proof (zero_iters_S2 t ids (l_subs s)) as HZ.
+    destruct (zero_iters ids t (l_subs s)) as [subs1 [e|]]; cbn [fst snd] in *; [discriminate|].
+    assert (H0 : nostamp s (mkL (l_core s) subs1 (l_log s))) by (split; [reflexivity|split; [reflexivity|exact HZ]]).
+    pose proof (run_hook_nostamp pre ids o t 0%nat (LPre t) (mkL (l_core s) subs1 (l_log s))) as H1.
+    destruct (run_hook pre ids o t 0%nat (LPre t) (mkL (l_core s) subs1 (l_log s))) as [s1 [e|]]; cbn [fst snd] in *.
+    - intros _. eapply nostamp_trans; eauto.
+    - intros H. apply lfinish_user in H as (s2 & E & F). rewrite F.
+      pose proof (lloop_nostamp ids o t (Z.to_nat (max_iter o)) 1%nat s1 cur) as H2. rewrite E in H2. cbn [LinkerFacts.llres_state] in H2.
+      eapply nostamp_trans; [exact H0|]. eapply nostamp_trans; eauto.
+  Qed.
+End LRaise.
